@@ -1374,9 +1374,12 @@ class ObjCTypesBackend(ObjCBaseBackend):
                                     attrs = []
                                     for field in route_schema.fields:
                                         attr_key = field.name
-                                        attr_val = ("@\"{}\"".format(route.attrs
-                                                .get(attr_key)) if route.attrs
-                                            .get(attr_key)
+                                        attr_val = ("@\"{}\"".format(
+                                            str(route.attrs.get(attr_key))
+                                            .replace('\\', '\\\\')
+                                            .replace('"', '\\"')
+                                            .replace('\n', '\\n'))
+                                            if route.attrs.get(attr_key)
                                             else 'nil')
                                         attrs.append('@\"{}\": {}'.format(
                                             attr_key, attr_val))
